@@ -15,8 +15,8 @@ pub static PROP: PropDef = PropDef {
     builds: opt_only,
     max_tape: 120,
     cases: |t| match t {
-        Tier::Quick => 30_000,
-        Tier::Thorough => 400_000,
+        Tier::Quick => 300_000,
+        Tier::Thorough => 4_000_000,
     },
     fixed: no_fixed,
     check,
